@@ -687,6 +687,23 @@ impl StreamInfo {
         self.total_samples = n as u64;
     }
 
+    /// Sets the block-size and frame-size bounds exactly as stored in a bitstream.
+    ///
+    /// A stream without frames carries the initial (inverted) bounds, so the
+    /// ordering is not checked here; use [`Verify::verify`] on the result.
+    ///
+    /// [`Verify::verify`]: crate::error::Verify::verify
+    #[cfg(any(test, feature = "decode"))]
+    #[inline]
+    pub(crate) fn set_raw_bounds(
+        &mut self,
+        block_sizes: (u16, u16),
+        frame_sizes: (u32, u32),
+    ) {
+        (self.min_block_size, self.max_block_size) = block_sizes;
+        (self.min_frame_size, self.max_frame_size) = frame_sizes;
+    }
+
     /// Returns md5 digest of the input waveform.
     ///
     /// # Examples
